@@ -52,6 +52,10 @@ func Count(quick, thorough int) int {
 
 func Rand() *rand.Rand { return rand.New(rand.NewSource(Seed())) }
 
+// SubRand derives an independent generator (for a goroutine) from r, so that every random
+// choice of a run still comes from the one seed.
+func SubRand(r *rand.Rand) *rand.Rand { return rand.New(rand.NewSource(r.Int63())) }
+
 // Case is one correspondence case: the Coq term of type `case` (defined by the property's
 // Coq case library), a JSON mirror for replay files, the verdict of the DIRECT property
 // oracle evaluated on the implementation's behaviour (independent of the model), and tags
